@@ -47,12 +47,28 @@ class Domain(xtuml.MetaModel):
     
     def __init__(self, id_generator=None):
         self.symbols = dict()
+        self.symbols_by_kind = dict()
         xtuml.MetaModel.__init__(self, id_generator)
         
-    def add_symbol(self, name, handle):
+    def add_symbol(self, name, handle, kind=None):
+        '''
+        Add a symbol to the domain. The optional *kind*, e.g. 'function' or
+        'constant', keeps symbols of different kinds apart that share a name. 
+        '''
         self.symbols[name] = handle
+        if kind is not None:
+            self.symbols_by_kind[(kind, name)] = handle
         
-    def find_symbol(self, name):
+    def find_symbol(self, name, kind=None):
+        '''
+        Find a symbol by its *name*, preferably one of some *kind* (or of the 
+        first matching one in a sequence of kinds).
+        '''
+        kinds = [kind] if isinstance(kind, str) else (kind or [])
+        for k in kinds:
+            if (k, name) in self.symbols_by_kind:
+                return self.symbols_by_kind[(k, name)]
+        
         if name in self.symbols:
             return self.symbols[name]
         
@@ -472,29 +488,30 @@ def mk_component(bp_model, c_c=None, derived_attributes=False):
         
     for s_sync in bp_model.select_many('S_SYNC', c_c_filt):
         fn = mk_function(target, s_sync)
-        target.add_symbol(s_sync.Name, fn)
+        target.add_symbol(s_sync.Name, fn, 'function')
     
     for s_dt in bp_model.select_many('S_DT', c_c_filt):
         s_edt = one(s_dt).S_EDT[17]()
         if s_edt:
             enum = mk_enum(s_edt)
-            target.add_symbol(s_dt.Name, enum)
+            target.add_symbol(s_dt.Name, enum, 'enumeration')
         
     for cnst_csp in bp_model.select_many('CNST_CSP', c_c_filt):
         for cnst_syc in many(cnst_csp).CNST_SYC[1504]():
             value = mk_constant(cnst_syc)
-            target.add_symbol(cnst_syc.Name, value)
+            target.add_symbol(cnst_syc.Name, value, 'constant')
         
     for ass in target.associations:
         ass.formalize()
     
     for s_ee in bp_model.select_many('S_EE', c_c_filt):
         if s_ee.Key_Lett in ['LOG', 'ARCH', 'TIM', 'NVS', 'PERSIST']:
-            target.add_symbol(s_ee.Key_Lett, getattr(builtin_ee, s_ee.Key_Lett))
+            target.add_symbol(s_ee.Key_Lett, getattr(builtin_ee, s_ee.Key_Lett),
+                              'external entity')
                               
         else:
             ee = mk_external_entity(target, s_ee)
-            target.add_symbol(s_ee.Key_Lett, ee)
+            target.add_symbol(s_ee.Key_Lett, ee, 'external entity')
     
     return target
 
